@@ -372,7 +372,50 @@ func (g *gen) numForStmt() []Stmt {
 func (g *gen) genForStmt() []Stmt {
 	c := newEctx()
 	g.feat("generic-for")
-	switch g.n(4, "genfor-form") {
+	switch g.n(6, "genfor-form") {
+	case 4:
+		// control values of every type: only nil ends the loop (false, 0 and ""
+		// do not), the state and the initial control value reach the iterator
+		// unchanged, extra iterator results are dropped, missing ones are nil
+		g.feat("generic-for-control-values")
+		vals := [][]Expr{
+			{&False{}, I(1)}, {I(0), I(2)}, {S(""), I(3)}, {&Float{V: 0.5}, I(4)}, {&True{}, I(5)}, {&Table{}, I(6)},
+		}
+		n := 1 + g.n(len(vals), "ctl-n")
+		start := g.n(len(vals), "ctl-start")
+		i := g.fresh("i")
+		var conds []Expr
+		var blocks [][]Stmt
+		for k := 0; k < n; k++ {
+			v := vals[(start+k)%len(vals)]
+			conds = append(conds, B("==", N(i), I(int64(k+1))))
+			blocks = append(blocks, []Stmt{&Return{Exprs: []Expr{v[0], v[1], S("extra")}}})
+		}
+		a, b, cc := g.fresh("a"), g.fresh("b"), g.fresh("c")
+		return []Stmt{&Do{Body: []Stmt{
+			&Local{Names: []string{i}, Exprs: []Expr{I(0)}},
+			&GenFor{Names: []string{a, b, cc}, Exprs: []Expr{
+				&Func{Params: []string{"s", "ctl"}, Body: []Stmt{
+					&Assign{Targets: []Expr{N(i)}, Exprs: []Expr{B("+", N(i), I(1))}},
+					Emit(S("iter-called"), N("s"), C(N("type"), N("ctl"))),
+					&If{Conds: conds, Blocks: blocks},
+				}},
+				S("state"), &False{},
+			}, Body: []Stmt{Emit(S("ctl"), C(N("type"), N(a)), N(b), N(cc))}},
+			Emit(S("ctl-done"), N(i)),
+		}}}
+	case 5:
+		// pairs/next over tables whose only key is false, 0, "" or a float
+		g.feat("generic-for-falsy-keys")
+		key := []Expr{&False{}, I(0), S(""), &Float{V: 0.5}, &True{}}[g.n(5, "falsy-key")]
+		k, v := g.fresh("k"), g.fresh("v")
+		t := g.fresh("t")
+		return []Stmt{
+			&Local{Names: []string{t}, Exprs: []Expr{&Table{Items: []TItem{{Key: key, Val: S("only")}}}}},
+			&GenFor{Names: []string{k, v}, Exprs: []Expr{C(N("pairs"), N(t))}, Body: []Stmt{Emit(S("pairs-key"), N(k), N(v))}},
+			&GenFor{Names: []string{k, v}, Exprs: []Expr{N("next"), N(t)}, Body: []Stmt{Emit(S("next-key"), N(k), N(v))}},
+			Emit(S("next-after"), C(N("next"), N(t))),
+		}
 	case 0:
 		// ipairs over an array
 		arr := g.pickVar(kArr, c, "genfor-arr")
